@@ -130,6 +130,7 @@ def gen_addresses(r):
 
 
 CASES["validate_addresses"] = gen_addresses
+CASES["channel_ok"] = lambda r: [gen_channel(r)]
 
 
 def same(a, b):
@@ -150,6 +151,10 @@ def reference(fn, args):
         if not ok:
             return {"err": {}}
         return {"ok": bech32.hook_account(ch, s, p.lower())}
+    if fn == "channel_ok":
+        import re
+        m = re.fullmatch(r"channel-([0-9]+)", args[0])
+        return {"ok": bool(m) and int(m.group(1)) <= U64}
     if fn == "compute_mint_amount":
         n, l, a = map(int, args)
         v = a if n == 0 else l * a // n
